@@ -15,13 +15,17 @@
    * `store_metadata` under ANY fault plan, from any state: it returns the path
      and the document is the new version, or it raises and every document —
      the previous version of this one included — is as before.
-  Not proved: "error or whole effect" for the object calls and the roll-back
-  for one-off plans in general (established by the fault sweep of this check on the real code and by
+   * `tag_object` and `store_object(pid, …)` under ANY fault plan, from any
+     state: if the call returns normally then its whole effect was achieved —
+     the pid reference names the (reported) cid and the cid's list names the
+     pid; the reported cid and size are the data's.
+  Not proved: the roll-back after a failure for one-off plans in general (established by the fault sweep of this check on the real code and by
   model/code agreement under every plan).
 -/
 import HSModel.Props.C09
 import HSModel.Props.C10
 import HSModel.Proofs.FaultMeta
+import HSModel.Proofs.OkStore
 namespace HS.C13
 variable (cfg : Config) (o : Oracle)
 
@@ -50,6 +54,27 @@ theorem store_metadata_error_or_whole_effect (w : World) (p f : Str) (t : Tok) (
       (∃ e, ((storeMetadata cfg o (.str p) (.ok t) fmt).run w).1 = .error e ∧
         ((storeMetadata cfg o (.str p) (.ok t) fmt).run w).2.st.mdocs = w.st.mdocs) :=
   smeta_error_or_effect cfg o w p f t fmt hp hf hfree
+
+/-- `tag_object` under any fault plan, from any store and any lock state:
+    **a normal return means the whole effect** — the arguments were accepted, the
+    pid reference holds the cid, and the cid's reference list names the pid -/
+theorem tag_object_success_means_bound (pid cid : SArg) (w w' : World) (v : Val)
+    (h : Prog.run (tagObject cfg o pid cid) w = (.ok v, w')) :
+    ∃ p c, checkString pid = .ok p ∧ checkString cid = .ok c ∧
+      w'.st.pidRefs.get (o.hId p) = some c ∧ ∃ t, w'.st.cidRefs.get c = some t ∧ inRefs p t = true :=
+  tag_ok_inv cfg o pid cid w w' v h
+
+/-- `store_object(pid, data, …)` under any fault plan, from any store and any
+    lock state: **a normal return means the whole effect** — what is reported is
+    the digest and size of the data, the pid reference holds that cid, and the
+    cid's reference list names the pid -/
+theorem store_object_success_means_bound (pid : SArg) (data : DataArg) (additional checksum csAlg : SArg)
+    (expSize : IArg) (hnone : pid ≠ .none) (w w' : World) (v : Val)
+    (h : Prog.run (storeObject cfg o pid data additional checksum csAlg expSize) w = (.ok v, w')) :
+    ∃ p t m, checkString pid = .ok p ∧ openStream data = .ok t ∧ v = .objMeta m ∧
+      m.cid = o.dig cfg.alg t ∧ m.size = o.size t ∧
+      w'.st.pidRefs.get (o.hId p) = some m.cid ∧ ∃ x, w'.st.cidRefs.get m.cid = some x ∧ inRefs p x = true :=
+  store_ok_inv cfg o pid data additional checksum csAlg expSize hnone w w' v h
 
 /-- a one-off plan that has fired never fails another primitive -/
 theorem one_off_fires_once (f : Fault) (e : Ev) (hf : f.fired = true) (hp : f.persistent = false) :
